@@ -1132,6 +1132,18 @@ void Handler::endValueList()
 
 
 
+/// Returns if the list of values of the last argument is still open, i.e.
+/// if a following value belongs to that argument.
+///
+/// @return  \c true if the last argument used accepts (more) values.
+bool Handler::valueListOpen() const
+{
+
+   return (mpLastArg != nullptr) && mpLastArg->takesMultiValue();
+} // Handler::valueListOpen
+
+
+
 /// Searches if the given argment key belongs to a known argument, and if so
 /// prints its usage.
 /// If the argument key is unknown, an error message is printed.<br>
